@@ -36,7 +36,7 @@ func c05Witnesses(rec *ev.Rec) {
 		a := witnessTreeVal(v, isBin, model.Val{K: model.KBin, B: []byte{1, 2}})
 		b := witnessTreeVal(v, isBin, model.Val{K: model.KBin, B: []byte{3}})
 		if a == nil || b == nil {
-			return false, ""
+			return noWitnessTree()
 		}
 		r, err := ygot.MergeStructs(model.Build(a), model.Build(b))
 		if err == nil {
@@ -50,7 +50,7 @@ func c05Witnesses(rec *ev.Rec) {
 			return f.Kind == model.FLeaf && !f.ElemUnion && f.Type.VKind() == model.KBin && model.LenOK(f.Type.Length, 0)
 		}, model.Val{K: model.KBin, B: []byte{}})
 		if m == nil {
-			return false, ""
+			return noWitnessTree()
 		}
 		r, err := ygot.MergeStructs(model.Build(m), model.Build(m))
 		if err != nil {
@@ -67,7 +67,7 @@ func c05Witnesses(rec *ev.Rec) {
 			return f.Kind == model.FLeaf && !f.ElemUnion && f.Type.VKind() == model.KEmpty
 		}, model.Val{K: model.KEmpty})
 		if a == nil {
-			return false, ""
+			return noWitnessTree()
 		}
 		// b: the same containers, the leaf unset
 		b := a.Clone()
@@ -96,7 +96,7 @@ func c05Witnesses(rec *ev.Rec) {
 		v := variants.Get("vtu")
 		base := witnessTree(v, func(f *model.FieldInfo) bool { return f.Kind == model.FOrdList })
 		if base == nil {
-			return false, ""
+			return noWitnessTree()
 		}
 		// base holds entries [k0 k1 k2]; a = [k0 k1], b = [k2 k0]: partial overlap whose first key is new to a
 		a, b := base.Clone(), base.Clone()
@@ -144,6 +144,7 @@ func TestC05(t *testing.T) {
 	rec.Assume("list entries whose key is a wrapper union are never put on both sides: in Go such a key is a pointer to a wrapper struct, so two independently built trees cannot hold 'the same' entry")
 	rec.Assume("leaf-lists / unkeyed lists that hold the same elements in a different order, and an ordered list of a whose keys are a strict same-order subset of b's: no verdict asserted (statement and doc comments leave them open); non-mutation is still asserted")
 	c05Witnesses(rec)
+	checkWitnesses(t)
 	cnt := newCounter()
 	rapid.Check(t, func(rt *rapid.T) {
 		v := th.PickVariant(rt, th.AllVariants...)
